@@ -1890,9 +1890,155 @@ fn arithfn(rng: &mut Rng, iters: u64) {
     }
 }
 
+/// C16 / C01 probe (bounded stand-in: pm1_impl is not under contract): nothing false. Products of three or four primes,
+/// one or two of them with a smooth p - 1 (found in stage 1, alone at the last checkpoint or together), composite cofactor,
+/// small and large B2 (both stage-2 variants): the factors returned multiply, with the cofactor, to n, each is a proper
+/// divisor, and none is reported twice unless it divides n twice.
+fn pm1lists(rng: &mut Rng, iters: u64) {
+    use yamaquasi::Verbosity;
+    fn is_prime(n: u64) -> bool { yamaquasi::isprime64(n) }
+    fn next_prime(mut n: u64) -> u64 { n |= 1; while !is_prime(n) { n += 2; } n }
+    // p = 2 * (small smooth part) * l + 1 prime with l a prime below b1
+    let smooth_prime = |rng: &mut Rng, b1: u64| -> u64 {
+        loop {
+            let mut l = 1 + rng.next() % (b1 - 1); while !is_prime(l) { l = if l + 1 < b1 { l + 1 } else { 3 }; }
+            let m = [2u64, 6, 10, 12, 30, 42, 66, 78, 210, 330][(rng.next() % 10) as usize] * (1 + rng.next() % 50);
+            let p = m * l + 1;
+            if p > (1 << 18) && is_prime(p) { return p; }
+        }
+    };
+    for _ in 0..(if iters < 1000 { 2 } else { 10 }) { pm1lists_blocks(rng); }
+    let rounds = if iters < 1000 { 6 } else if iters < 50000 { 30 } else { 200 };
+    for it in 0..rounds {
+        let (b1, b2) = [(600u64, 40e3f64), (16384, 450e3), (1000, 980e3), (300, 100e3)][(it % 4) as usize];
+        let p1 = smooth_prime(rng, b1);
+        let mut primes = vec![p1];
+        if it % 3 == 0 { let mut p2 = smooth_prime(rng, b1); while p2 == p1 { p2 = smooth_prime(rng, b1); } primes.push(p2); }
+        if it % 5 == 4 { primes.push(p1); }
+        // two primes whose p - 1 has a large prime factor (safe-prime like): never found
+        for _ in 0..2 {
+            loop {
+                let q = next_prime((1 << 27) + rng.next() % (1 << 27));
+                if is_prime(2 * q + 1) { primes.push(2 * q + 1); break; }
+            }
+        }
+        let mut n = Uint::ONE; for &p in &primes { n = n * Uint::from(p); }
+        match catch_unwind(AssertUnwindSafe(|| yamaquasi::pollard_pm1::pm1_impl(&n, b1, b2, Verbosity::Silent))) {
+            Err(_) => fail("pm1lists", format!("pm1_impl(n = {n} = product of {primes:?}, B1 {b1}, B2 {b2}): panic")),
+            Ok(None) => fail("pm1lists", format!("pm1_impl(n = {n} = product of {primes:?}, B1 {b1}, B2 {b2}) = None although {p1} - 1 is {b1}-smooth")),
+            Ok(Some((fs, rest))) => {
+                let mut prod = rest; for f in &fs { prod = prod * *f; }
+                let bad = fs.iter().any(|f| *f <= Uint::ONE || *f >= n || n % *f != Uint::ZERO);
+                if prod != n || bad || rest.is_zero() || n % rest != Uint::ZERO {
+                    fail("pm1lists", format!("pm1_impl(n = {n} = product of {primes:?}, B1 {b1}, B2 {b2}) = ({fs:?}, {rest}): the parts do not multiply back to n / are not proper divisors"));
+                }
+            }
+        }
+    }
+}
+
+/// second part of pm1lists: stage 1 over several sieve blocks (B1 > 65536), one factor found in the first block, another in
+/// a later one, and the division by the first factor takes a 64-bit word off the modulus (the ring is rebuilt in between)
+fn pm1lists_blocks(rng: &mut Rng) {
+    use yamaquasi::Verbosity;
+    fn is_prime(n: u64) -> bool { yamaquasi::isprime64(n) }
+    // p1 - 1 smooth below 2^12 (first block), about 50 bits
+    let p1 = loop {
+        let mut m = 2u64;
+        while m < (1 << 48) { m *= [2u64, 3, 5, 7, 11, 13, 17, 19, 23, 29, 31, 3137][(rng.next() % 12) as usize]; }
+        if m < (1 << 58) && is_prime(m + 1) { break m + 1; }
+    };
+    // p2 - 1 = 2 * small * l with l a prime in (70000, 190000): found in a later block, about 40 bits
+    let p2 = loop {
+        let mut l = 70001 + 2 * (rng.next() % 60000); while !is_prime(l) { l += 2; }
+        let m = 2 * [1009u64, 2003, 4001, 1013, 3001][(rng.next() % 5) as usize] * [1u64, 3, 5, 7][(rng.next() % 4) as usize];
+        if is_prime(m * l + 1) { break m * l + 1; }
+    };
+    // r: a prime of about 131 bits, so that n has 4 words and n / p1 has 3
+    let mut r = (Uint::ONE << 130) + Uint::from(rng.next()) * Uint::from(rng.next() | 1);
+    r = r | Uint::ONE;
+    while !yamaquasi::pseudoprime(r) { r = r + Uint::from(2u64); }
+    let n = Uint::from(p1) * Uint::from(p2) * r;
+    match catch_unwind(AssertUnwindSafe(|| yamaquasi::pollard_pm1::pm1_impl(&n, 200_000, 450e3, Verbosity::Silent))) {
+        Err(_) => fail("pm1lists", format!("pm1_impl(n = {p1} * {p2} * {r}, B1 200000, B2 450e3): panic")),
+        Ok(None) => fail("pm1lists", format!("pm1_impl(n = {p1} * {p2} * {r}, B1 200000, B2 450e3) = None although {p1} - 1 and {p2} - 1 are 200000-smooth")),
+        Ok(Some((fs, rest))) => {
+            let mut prod = rest; for f in &fs { prod = prod * *f; }
+            if prod != n || !fs.contains(&Uint::from(p1)) || !fs.contains(&Uint::from(p2)) {
+                fail("pm1lists", format!("pm1_impl(n = {p1} * {p2} * {r}, B1 200000, B2 450e3) = ({fs:?}, {rest}): {p1} - 1 and {p2} - 1 are both 200000-smooth (the first is found in the first sieve block, the second in a later one), both must be separated and the parts must multiply to n"));
+            }
+        }
+    }
+}
+
+/// F24 (open): factor(n, Algo::Qs) on tiny n hands relations with x >= n to the relation store (debug assertion)
+fn f24() {
+    use yamaquasi::{factor, Algo, Preferences};
+    let prefs = Preferences::default();
+    for n in [56977u64, 58649, 59713] {
+        if catch_unwind(AssertUnwindSafe(|| factor(Uint::from(n), Algo::Qs, &prefs))).is_err() {
+            fail("f24", format!("factor({n}, Algo::Qs): panic (debug_assert!(&r.x < &self.n) in RelationSet::add, src/relations.rs)"));
+        }
+    }
+}
+
+/// F25 (open): factor(n, Algo::Mpqs) on tiny n trips debug_assert!(self.c.is_negative()) in mpqs::Poly::prepare_prime
+fn f25() {
+    use yamaquasi::{factor, Algo, Preferences};
+    let prefs = Preferences::default();
+    for n in [58649u64, 61823, 80131] {
+        if catch_unwind(AssertUnwindSafe(|| factor(Uint::from(n), Algo::Mpqs, &prefs))).is_err() {
+            fail("f25", format!("factor({n}, Algo::Mpqs): panic (debug_assert!(self.c.is_negative()) in mpqs::Poly::prepare_prime, the branch 'D inside the factor base')"));
+        }
+    }
+}
+
+/// F26 (fixed): SIQS selection of A for n k >= 425 bits (17 factors and more: 68 candidate primes) shifted a u64 mask by 64
+/// and more. The selection is run as siqs() runs it, on a smaller factor base (the candidates are small primes).
+fn f26() {
+    use std::str::FromStr;
+    use bnum::cast::CastFrom;
+    use yamaquasi::siqs::{select_a, select_siqs_factors};
+    let n = Uint::from_str("5545339388241629719156828368286167406872874150758133909074815537308037068481566300108830688262325111028058132175165942026052435311").unwrap();
+    let res = catch_unwind(AssertUnwindSafe(|| {
+        let nint = yamaquasi::Int::cast_from(n);
+        let fb = yamaquasi::fbase::FBase::new(nint, 20000);
+        for nfacs in [17usize, 18, 20] {
+            let factors = select_siqs_factors(&fb, &nint, nfacs, 544 << 10, yamaquasi::Verbosity::Silent);
+            let a = select_a(&factors, 40, yamaquasi::Verbosity::Silent);
+            if a.is_empty() { return Err(format!("select_a({nfacs} factors) returned no value of A")); }
+        }
+        Ok(())
+    }));
+    match res {
+        Err(_) => fail("f26", "siqs::select_a for a 432-bit n (17 / 18 / 20 factors of A, 4 * nfacs candidate primes): panic (attempt to shift left with overflow)".to_string()),
+        Ok(Err(e)) => fail("f26", e),
+        Ok(Ok(())) => {}
+    }
+}
+
+/// F27 (open): the byte accumulators of the sieve overflow for inputs of about 430 bits (factor base of 538280 primes)
+fn f27() {
+    use std::str::FromStr;
+    use yamaquasi::{Algo, Preferences};
+    let n = Uint::from_str("5545339388241629719156828368286167406872874150758133909074815537308037068481566300108830688262325111028058132175165942026052435311").unwrap();
+    let t0 = std::time::Instant::now();
+    let mut prefs = Preferences::default();
+    prefs.verbosity = yamaquasi::Verbosity::Silent;
+    prefs.should_abort = Some(Box::new(move || t0.elapsed().as_secs() >= 6));
+    if catch_unwind(AssertUnwindSafe(|| yamaquasi::factor(n, Algo::Siqs, &prefs))).is_err() {
+        fail("f27", "factor(n of 432 bits, Algo::Siqs), aborted after 6 s: panic in the first sieved block (src/sieve.rs: `*blk.get_unchecked_mut(boff as usize) += logp`, attempt to add with overflow)".to_string());
+    }
+}
+
 pub fn run(case: &str, rng: &mut Rng, iters: u64) -> bool {
     match case {
         "gcdbez" => gcdbez(rng, iters),
+        "pm1lists" => pm1lists(rng, iters),
+        "f24" => f24(),
+        "f25" => f25(),
+        "f26" => f26(),
+        "f27" => f27(),
         "arithfn" => arithfn(rng, iters),
         "finalstep" => finalstep(rng, iters),
         "packrel" => packrel(rng, iters),
